@@ -10,6 +10,8 @@ URI_POOL = [
 ]
 # adversarial pool (C10): equal last segments, equal 3-letter abbreviations, dots, dashes, trailing slashes, URNs
 URI_POOL_ADVERSARIAL = [
+    "http://zv.test/orders/v1", "http://zv.test/customers/v1", "http://zv.test/x/v2", "http://zv.test/y/v2", "urn:zv:a:v1",
+    "http://zv.test/2006", "http://zv.test/q/2006", "http://zv.test/ty1", "http://zv.test/ty", "http://zv.test/ty2",
     "http://zv.test/v1/types", "http://zv.test/v2/types", "http://zv.test/v3/types", "http://other.test/types",
     "http://zv.test/a/typ", "http://zv.test/b/typography", "urn:zv:types", "urn:zv:x-types", "http://zv.test/my-types",
     "http://zv.test/types/", "http://zv.test/types.v1", "http://zv.test/t.y.pes", "http://zv.test/TYPES",
@@ -27,7 +29,7 @@ DEFAULT_CFG = dict(
     import_cycles=True, self_import=0.1, dup_import=0.1, nested_xmlns=0.15, no_tns=0.0,
     adversarial_uris=False, reuse_names=False, shadow_names=0.0,
     ops=(1, 4), p_oneway=0.25, headers=(0, 2), p_parts_attr=0.5, p_part_name_differs=0.5, p_soap_action=0.7,
-    quarantine=(), attr_named_simple=True,
+    quarantine=(), attr_named_simple=True, default_ns_own=0.1,
 )
 
 
@@ -44,6 +46,7 @@ class Gen:
         self.q = set(cfg.get("quarantine", ()))
         self.names = Names(r, cfg["keyword_rate"], cfg["styles"], cfg.get("max_words", 3), cfg.get("name_pool"))
         self.files = []
+        self.tns_only = set()
         self.created = []             # components in creation order (only earlier ones may be referenced)
         self.features = set()
 
@@ -84,13 +87,20 @@ class Gen:
                 f.prefixes[k] = avail.pop()
             if f.uri is None:
                 f.prefixes[f.idx] = ""
+            elif r.random() < self.cfg.get("default_ns_own", 0.1) and not (self.cfg["wsdl"] and f.idx == 0):
+                # "targetNamespace only": the file declares no prefix for its own namespace, so nothing inside it can refer
+                # to its own components by QName (other files still can, through their own prefixes)
+                del f.prefixes[f.idx]
+                self.tns_only.add(f.idx)
+                self.features.add("own-namespace-without-prefix")
             f.nested_xmlns = r.random() < self.cfg["nested_xmlns"]
             if f.nested_xmlns:
                 self.features.add("nested-xmlns")
 
     def visible(self, fidx):
         """Files whose components file fidx may refer to."""
-        return {fidx} | set(self.files[fidx].imports)
+        own = set() if fidx in self.tns_only else {fidx}
+        return own | (set(self.files[fidx].imports) - ({fidx} if fidx in self.tns_only else set()))
 
     def in_progress(self, fidx):
         """Files that are still being read (DFS ancestors from the start file, imports in document order) when file
@@ -317,7 +327,7 @@ class Gen:
 
     def make_gelement(self, fidx, taken_elems):
         r = self.r
-        if self.cfg["reuse_names"] and r.random() < 0.3:
+        if self.cfg["reuse_names"] and r.random() < 0.3 and fidx not in self.tns_only:
             # the benign idiom <element name="Foo" type="tns:Foo"/>
             free = [c for c in self.files[fidx].components if c.kind == "complex"
                     and not any(g.kind == "gelement" and g.name.xml == c.name.xml for g in self.files[fidx].components)]
